@@ -76,6 +76,7 @@ void yk_stop(void) {
     std::fflush(stdout);
     std::_Exit(0);
 }
+void yk_layers_reset(void) {}
 void yk_reach_at(std::uint32_t line) {
     if (line >= 100000) std::printf("REACH reach:%u@%u\n", line % 100000, line / 100000);
     else std::printf("REACH reach:%u\n", line);
